@@ -171,13 +171,18 @@ def compare_case(case, mres):
     return div, stats
 
 
-def run(ck, ncases, stream, malformed=False, kinds=None, batch=200):
+def run(ck, ncases, stream, malformed=False, kinds=None, batch=200, budget_s=None):
+    import time
+    t0 = time.time()
     rng = random.Random(ck.rng.getrandbits(64))
     done = 0
     totals = {}
     while done < ncases:
+        if budget_s is not None and time.time() - t0 > budget_s:
+            ck.log("%s stopped by its time budget (%ds) after %d of %d cases" % (stream, budget_s, done, ncases))
+            break
         cases = []
-        while len(cases) < min(batch, ncases - done):
+        while len(cases) < min(batch if budget_s is None else 100, ncases - done):
             c = one_case(rng, malformed=malformed, kinds=kinds)
             if c is not None:
                 cases.append(c)
